@@ -180,8 +180,8 @@ def cases(tier, seed):
             n += 1
             yield {"id": n, "fam": "special", "label": label, "frag": frag, "expect": exp, "mode": mode}
     rng = random.Random(2000 + seed)
-    n_id = 4000 if tier == "quick" else 48000
-    n_thr = 800 if tier == "quick" else 8000
+    n_id = 4000 if tier == "quick" else 30000
+    n_thr = 800 if tier == "quick" else 6000
     # interleave the two families so that --limit runs see both
     ratio = max(1, n_id // n_thr)
     made_id = made_thr = 0
